@@ -313,6 +313,9 @@ fn parse_cron_part(
         if part == "*" {
             values.extend(min..=max);
         } else if let Some(step) = part.strip_prefix("*/") {
+            if step.starts_with('+') {
+                return Err(format!("Can't parse step value to u8: {}", step));
+            }
             let step: u8 = step
                 .parse()
                 .map_err(|_| format!("Can't parse step value to u8: {}", step))?;
